@@ -27,7 +27,13 @@ CLAIMED = {
               "w.r.t. the reported relation, stability of two consecutive listings and get_last_entry().",
               "Causality is judged from relation_link as reported by the listed operations; depth stays far below the graph depth limit.",
               "DESIGN.md section 4 / C02"),
-    "C03": None,
+    "C03": _c("Hypothesis RuleBasedStateMachine over mutation / observation histories; differential against twins replayed from the mutation log",
+              "Exploration of call histories: rules add operations and prepared sub-circuits, unroll, flatten, change registry durations and counts, enter / leave "
+              "global-duration overrides, and interleave nine kinds of observation (listing, duration, times, acquisition indices, Stim export, compact / full "
+              "plot, copy, unrolled copy). Whenever a mutation follows an observation, and at the end, the live circuit is compared with two twins rebuilt from the "
+              "mutation log alone (never observed / listed after every mutation) on a full fingerprint; the whole step list shrinks as one value and replays without Hypothesis.",
+              "All three circuits are read under the same override stack; DynamicDurationStrategy callables are outside the quantifier.",
+              "DESIGN.md section 4 / C03"),
     "C04": _c("generated build programs biased to off-leaf spans; validity predicate duration == span of listed content",
               "Exploration: " + PROGRAMS + " with ~70 % explicit relations so that the latest end / earliest start often sit on non-leaf / non-first operations; "
               "for the circuit and every sub-circuit the reported duration must equal max end - min start over the operations it lists, 0 when empty, and "
